@@ -508,6 +508,7 @@ class World:
         self.steps = 0
         self.trace = []
         self.srv_exceptions = 0
+        self.c2s_filter = None
         self.on_deliver = None   # hook(conn, payload) just before a server message reaches the client
         self.db = create_channel_db(":memory:")
         self.udb = create_usage_db(":memory:")
@@ -732,6 +733,10 @@ class World:
         self.net.links = [l for l in self.net.links if not l.dead()]
 
     def _srv_rx(self, c, payload):
+        if self.c2s_filter is not None:
+            payload = self.c2s_filter(c, payload)   # message-level man in the middle
+            if payload is None:
+                return
         try:
             c.srv.onMessage(payload, False)
         except Exception:
